@@ -49,7 +49,13 @@ def _hist(draw, big):
             "dt": draw(st.sampled_from([0.25, 0.5, 1.0, 2.0])),
             "nt": draw(st.integers(5, 60 if not big else 200)),
             "mult": draw(st.integers(1, 5)), "shift": draw(st.integers(0, 6)),
-            "sublen": draw(st.integers(2, 12))}
+            "sublen": draw(st.integers(2, 12)),
+            # positions (in the list of assignments) after which an assignment to a state that does not exist is tried
+            # (refused by the library; the caller catches the exception and goes on)
+            "bad_after": draw(st.lists(st.integers(0, 13), max_size=2)),
+            # one more assignment made after the first propagation, followed by a second propagation with the same
+            # propagator object: [to, from, value]
+            "edit_after": draw(st.sampled_from([None, None]) | st.tuples(idx, idx, st.integers(1, 20)).map(list))}
 
 
 def strategy(tier):
@@ -98,6 +104,18 @@ def check_case(case, ctx):
         K = model_matrix(model, dim)
         ctx.close("set_rate/matrix", R.data, K, rtol=1e-12, scale=scale, step=step)
         ctx.close("set_rate/colsum", numpy.sum(R.data, axis=0), numpy.zeros(dim), atol=1e-12 * scale * 50, step=step)
+        if step in (case.get("bad_after") or []):
+            # an assignment that names a state beyond the last one: refused, and the matrix is what it was
+            keep = numpy.array(R.data, copy=True)
+            try:
+                R.set_rate((dim, j), val + unit)
+                ctx.fail("set_rate/out-of-range-accepted", step=step)
+            except Exception:
+                ctx.label("out-of-range-refused")
+            if not numpy.array_equal(keep, R.data):
+                ctx.fail("set_rate/refusal-changed-data", "out-of-range-target", step=step,
+                         change=float(numpy.max(numpy.abs(keep - R.data))))
+                return
     K = model_matrix(model, dim)
     knorm = float(numpy.max(numpy.sum(numpy.abs(K), axis=0)))
 
@@ -142,6 +160,38 @@ def check_case(case, ctx):
             ctx.close("propagate/sum", numpy.sum(pops, axis=1), numpy.full(nt, numpy.sum(p0)), rtol=1e-10, atol=1e-12)
             ctx.bound("propagate/expm", float(numpy.max(numpy.abs(pops - exact))), bound)
             ctx.bound("propagate/nonneg", float(max(0.0, -numpy.min(pops))), bound)
+
+    # ---- the rate matrix is edited after the first propagation; the same propagator is used again ----------------
+    ea = case.get("edit_after")
+    if ea and ea[0] != ea[1] and ok:
+        val2 = ea[2] * unit
+        model2 = dict(model)
+        model2[(ea[0], ea[1])] = val2
+        K2 = model_matrix(model2, dim)
+        if dt * float(numpy.max(numpy.sum(numpy.abs(K2), axis=0))) <= 0.5:
+            ok2, _ = guarded(ctx, "set_rate", lambda: R.set_rate((ea[0], ea[1]), val2), "after-propagation")
+            if not ok2:
+                return
+            ok2, pops2 = guarded(ctx, "propagate", lambda: prop.propagate(p0_arg), "second-propagation")
+            if ok2:
+                pops2 = numpy.asarray(pops2)
+                E2 = scipy.linalg.expm(K2 * dt)
+                T2 = numpy.eye(dim)
+                term = numpy.eye(dim)
+                for l in range(1, 5):
+                    term = term @ (K2 * dt) / l
+                    T2 = T2 + term
+                pe, ptt, tau2 = p0.copy(), p0.copy(), 0.0
+                ex2 = [pe.copy()]
+                for n in range(1, nt):
+                    pe = E2 @ pe
+                    ptt = T2 @ ptt
+                    ex2.append(pe.copy())
+                    tau2 = max(tau2, float(numpy.max(numpy.abs(pe - ptt))))
+                ctx.bound("propagate/expm", float(numpy.max(numpy.abs(pops2 - numpy.array(ex2)))),
+                          3 * tau2 + 1e-9 * max(1.0, float(numpy.sum(p0))), where="rates-edited-after-first-propagation")
+                ctx.label("edited-after-propagation")
+            model, K = model2, K2
 
     # ---- propagation matrix on a sub-axis -----------------------------------
     mult, shift = case["mult"], case["shift"]
